@@ -1669,3 +1669,85 @@ func ruleC10LoaderNeverNil(c *Ctx) {
 	})
 	c.R.Floor(rule, "places where Resolve installs a default Loader", n, 1)
 }
+
+func init() {
+	p := Properties["C10"]
+	p.Rules = append(p.Rules, Rule{"C10/bytes-of-byte-slices", ruleC10BytesOfByteSlices})
+}
+
+// reflect.Value.Bytes panics unless the value is a slice (or addressable array) of bytes. Each call is guarded by a
+// test that the element kind of the value's own type is Uint8, or by the equality of its type with the type of a
+// value for which that test was made.
+func ruleC10BytesOfByteSlices(c *Ctx) {
+	const rule = "C10/bytes-of-byte-slices"
+	n := 0
+	seen := map[*ssa.Function]bool{}
+	for _, cn := range []string{"EQ", "EV", "DEF"} {
+		for _, fn := range c.Closure(rule, cn).Sorted() {
+			if seen[fn] || !c.P.InPkg(fn) {
+				continue
+			}
+			seen[fn] = true
+			core.EachInstr(fn, func(i ssa.Instruction) {
+				call, ok := i.(*ssa.Call)
+				if !ok || core.CalleeKey(&call.Call) != "reflect.Value.Bytes" {
+					return
+				}
+				n++
+				v := call.Call.Args[0]
+				// values whose element kind has been found to be Uint8, and type equalities, among the guards
+				typeOf := func(x ssa.Value) ssa.Value { // x is V.Type(): V
+					for _, s := range append(traceSources(x), x) {
+						if tc, ok := s.(*ssa.Call); ok && core.CalleeKey(&tc.Call) == "reflect.Value.Type" {
+							return tc.Call.Args[0]
+						}
+					}
+					return nil
+				}
+				same := func(a, b ssa.Value) bool { return a != nil && b != nil && (a == b || sharesSource(a, b)) }
+				var byteElem []ssa.Value
+				var eqPairs [][2]ssa.Value
+				for _, g := range guardsOf(call) {
+					bo, ok := g.Cond.(*ssa.BinOp)
+					if !ok || !((bo.Op == token.EQL && g.Pol) || (bo.Op == token.NEQ && !g.Pol)) {
+						continue
+					}
+					// V.Type().Elem().Kind() == Uint8
+					for _, pair := range [][2]ssa.Value{{bo.X, bo.Y}, {bo.Y, bo.X}} {
+						if k, isK := pair[1].(*ssa.Const); isK && k.Value != nil {
+							if kv, ok := constInt(k); ok && kv == int64(kUint8) {
+								if kc, ok := pair[0].(*ssa.Call); ok && kc.Call.IsInvoke() && kc.Call.Method.Name() == "Kind" {
+									if ec, ok := kc.Call.Value.(*ssa.Call); ok && ec.Call.IsInvoke() && ec.Call.Method.Name() == "Elem" {
+										if w := typeOf(ec.Call.Value); w != nil {
+											byteElem = append(byteElem, w)
+										}
+									}
+								}
+							}
+						}
+					}
+					// V.Type() == W.Type()
+					if a, b := typeOf(bo.X), typeOf(bo.Y); a != nil && b != nil {
+						eqPairs = append(eqPairs, [2]ssa.Value{a, b})
+					}
+				}
+				okv := false
+				for _, w := range byteElem {
+					if same(w, v) {
+						okv = true
+					}
+					for _, p := range eqPairs {
+						if same(p[0], w) && same(p[1], v) || same(p[1], w) && same(p[0], v) {
+							okv = true
+						}
+					}
+				}
+				c.R.Check(okv, rule, fmt.Sprintf("%s:Bytes#%d", core.FuncName(fn), n), c.pos(call), "Bytes is applied to a value whose type is known to have byte elements",
+					"reflect.Value.Bytes is applied to a value that is not known to be a slice of bytes (no test of its element kind, and no equality of its type with a type so tested): for a []byte compared with an []any of the same length the call panics")
+			})
+		}
+	}
+	if n == 0 {
+		c.R.OK(rule, "none", "", "no call of reflect.Value.Bytes in the closures of Equal, Validate and ApplyDefaults")
+	}
+}
